@@ -45,9 +45,13 @@ func readByte(src *bufio.Reader) byte {
 }
 
 func decodeIntAdditionalType(src *bufio.Reader, minor byte) int64 {
-	val := int64(0)
+	return int64(decodeUintAdditionalType(src, minor))
+}
+
+func decodeUintAdditionalType(src *bufio.Reader, minor byte) uint64 {
+	val := uint64(0)
 	if minor <= 23 {
-		val = int64(minor)
+		val = uint64(minor)
 	} else {
 		bytesToRead := 0
 		switch minor {
@@ -65,7 +69,7 @@ func decodeIntAdditionalType(src *bufio.Reader, minor byte) int64 {
 		pb := readNBytes(src, bytesToRead)
 		for i := 0; i < bytesToRead; i++ {
 			val = val * 256
-			val += int64(pb[i])
+			val += uint64(pb[i])
 		}
 	}
 	return val
@@ -547,8 +551,18 @@ func cbor2JsonOneObject(src *bufio.Reader, dst io.Writer) {
 	case majorTypeUnsignedInt:
 		fallthrough
 	case majorTypeNegativeInt:
-		n := decodeInteger(src)
-		dst.Write([]byte(strconv.Itoa(int(n))))
+		pb := readByte(src)
+		val := decodeUintAdditionalType(src, pb&maskOutMajorType)
+		switch {
+		case major == majorTypeUnsignedInt:
+			dst.Write([]byte(strconv.FormatUint(val, 10)))
+		case val <= math.MaxInt64:
+			dst.Write([]byte(strconv.FormatInt(-1-int64(val), 10)))
+		case val == math.MaxUint64:
+			dst.Write([]byte("-18446744073709551616"))
+		default:
+			dst.Write([]byte("-" + strconv.FormatUint(val+1, 10)))
+		}
 
 	case majorTypeByteString:
 		s := decodeString(src, false)
